@@ -450,6 +450,75 @@ def run_fetch(case):
     return {"viol": dedupe(viol), "stats": stats, "nontrivial": sorted(nt), "evaluations": 1}
 
 
+def run_hostile_want(case):
+    """A client asks for an object id the server does not advertise (the commit of a deleted branch, a blob, a tree): the server either
+    refuses, or whatever it sends stays within the closure of the refs it advertises."""
+    from dulwich.client import HttpGitClient, LocalGitClient, TCPGitClient
+    from dulwich.repo import Repo
+    if "scratch" not in _st:
+        _st["scratch"] = core.Scratch("c05-")
+    rng = random.Random(case["seed"])
+    base = _st["scratch"].sub("h%d" % rng.randrange(10 ** 9))
+    sd, rd = os.path.join(base, "S.git"), os.path.join(base, "R.git")
+    viol, stats = [], {}
+    try:
+        ids, commits, feats = gen_history(sd, rng, case.get("n", 12))
+        # a secret: a commit on a branch that is then deleted (objects stay in the store, loose or packed)
+        core.git(["fast-import", "--quiet"], cwd=sd, input=b"commit refs/heads/secret\ncommitter C <c@d> 1700009999 +0000\ndata 6\nsecret\n"
+                 b"M 644 inline secret.txt\ndata 12\ntop secret!\n\n")
+        secret = core.git(["rev-parse", "refs/heads/secret"], cwd=sd).stdout.strip()
+        secret_objs = closure(sd, [secret])
+        core.git(["update-ref", "-d", "refs/heads/secret"], cwd=sd)
+        if rng.random() < 0.5:
+            core.git(["repack", "-adkq"], cwd=sd)
+        srefs = refs_of(sd)
+        advertised = closure(sd, list(srefs.values())) or set()
+        hidden = set(all_objects(sd)) - advertised
+        if not hidden:
+            return {"viol": [], "stats": {}, "evaluations": 0, "nontrivial": []}
+        types = all_objects(sd)
+        target_kind = rng.choice(["commit", "commit", "tree", "blob"])
+        cands = sorted(h for h in hidden if types.get(h) == target_kind.encode()) or sorted(hidden)
+        want = rng.choice(cands)
+        transport = case["transport"]
+        core.git(["init", "-q", "--bare", rd])
+        stats["hostile_wants"] = 1
+        srv = None
+        got_exc = None
+        wire = []
+        try:
+            r = Repo(rd)
+            try:
+                def det(refs, depth=None):
+                    return [want] + ([rng.choice(sorted(srefs.values()))] if srefs and rng.random() < 0.4 else [])
+                if transport == "local":
+                    LocalGitClient().fetch(sd, r, determine_wants=det)
+                elif transport == "tcp":
+                    srv = TCPServer(sd)
+                    TCPGitClient("127.0.0.1", port=srv.port).fetch("/", r, determine_wants=det)
+                else:
+                    srv = HTTPServer(sd)
+                    HttpGitClient("http://127.0.0.1:%d/" % srv.port).fetch("/", r, determine_wants=det)
+            finally:
+                r.close()
+        except (MemoryError, RecursionError):
+            raise
+        except Exception as e:
+            got_exc = type(e).__name__
+        finally:
+            if srv is not None:
+                srv.close()
+        received = set(all_objects(rd))
+        leaked = received - advertised
+        stats["hostile_want_%s" % ("refused" if got_exc else "served")] = 1
+        if leaked:
+            viol.append({"sig": "C05/hostile-want/%s/server-sent-objects-unreachable-from-advertised-refs/%s" % (transport, target_kind),
+                         "leaked": len(leaked), "includes_secret_blob": bool(leaked & secret_objs), "client_exception": got_exc})
+    finally:
+        shutil.rmtree(base, ignore_errors=True)
+    return {"viol": dedupe(viol), "stats": stats, "evaluations": 1, "nontrivial": ["hostile-want:%s:%s" % (case["transport"], target_kind)]}
+
+
 def dedupe(viol):
     seen, out = set(), []
     for v in viol:
@@ -529,6 +598,8 @@ def worker_exit():
 
 
 def run_case(case):
+    if case.get("kind") == "hostile-want":
+        return run_hostile_want(case)
     return {"fetch": run_fetch, "push": run_push}[case["kind"]](case)
 
 
@@ -545,9 +616,13 @@ def main(ctx):
     for t in PUSH_T:
         for i in range(ctx.budget(30, 300)):
             cases.append({"kind": "push", "transport": t, "seed": "%d/p/%s/%d" % (ctx.seed, t, i), "n": 16})
+    for t in ("local", "tcp", "http"):
+        for i in range(ctx.budget(20, 200)):
+            cases.append({"kind": "hostile-want", "transport": t, "seed": "%d/h/%s/%d" % (ctx.seed, t, i), "n": 10})
     ctx.rule = ("random DAGs from git fast-import (merges, octopus, several roots, shared blobs/subtrees, gitlinks, symlinks, annotated tags of "
                 "commits/trees/blobs/tags) x receiver pre-state {empty, ancestor-closed partial history} x wants {all, some, one} x %d fetch and %d "
-                "push transports. non-trivial = distinct (transport, receiver state, want kind, feature set)." % (len(FETCH_T), len(PUSH_T)))
+                "push transports; hostile wants: a dulwich client asks the in-process, TCP and smart-HTTP servers for an object they do not advertise "
+                "(commit of a deleted branch, tree, blob; loose or packed). non-trivial = distinct (transport, receiver state, want kind, feature set)." % (len(FETCH_T), len(PUSH_T)))
     ctx.assumptions = ["closures computed with git rev-list --objects on the sender", "gitlink targets are not part of a closure",
                        "objects the receiver already had that are resent are counted, not judged"]
 
